@@ -11,8 +11,10 @@ CONSTANTS DevDefaultFloor,     \* set of construction paths whose minimum versio
 \* material: what the supplied certificate / key files contain.  A pair that cannot be loaded prevents start-up.
 \* "bindFault": the files are fine but the first attempt to bind the listening socket fails (EADDRNOTAVAIL, e.g. ::1 without
 \* IPv6): whatever the server does about it - give up, retry - it never ends up listening without TLS.
+\* "der": the certificate file is DER, not PEM.  The tree refuses to start; a server that learns to load it is still bound by
+\* the floor (the driver holds any listener that comes up under a fault to NoOldVersion and PlaintextGetsNothing).
 ServerPaths == [backend : {"stdlib", "pyopenssl"}, cert : {"generated"}, material : {"ok"}]
-               \cup [backend : {"stdlib", "pyopenssl"}, cert : {"supplied"}, material : {"ok", "mismatch", "garbageKey", "garbageCert", "bindFault"}]
+               \cup [backend : {"stdlib", "pyopenssl"}, cert : {"supplied"}, material : {"ok", "mismatch", "garbageKey", "garbageCert", "bindFault", "der"}]
 ClientPaths == [mode : {"tofu", "ca"}]
 Versions == 1..4
 DevOne == {[backend |-> "pyopenssl", cert |-> "generated", material |-> "ok"]}     \* used by the self-test
